@@ -4,6 +4,8 @@ CFGS = {
     "prod": {},
     "small8": {"CONFIG_MAX_MESSAGE_SIZE": 8, "CONFIG_MAX_WRITE_BUFFER_SIZE": 8},
     "small4": {"CONFIG_MAX_MESSAGE_SIZE": 4, "CONFIG_MAX_WRITE_BUFFER_SIZE": 4},
+    "rt2": {"CONFIG_ROUTING_TABLE_ORDER": 2},
+    "rt1": {"CONFIG_ROUTING_TABLE_ORDER": 1},
     "small16": {"CONFIG_MAX_MESSAGE_SIZE": 16, "CONFIG_MAX_WRITE_BUFFER_SIZE": 16},
 }
 
@@ -247,6 +249,28 @@ for _sh, _nm in EL_SHAPES:
          expect_tags=["C04.remove.refused-request-changes-nothing"], **EL_COMMON)
 unit("el.setcall", ["C04", "C03", "C08", "C14", "C02", "C06"], "units/u_element.c", entry="h_el_setcall", functions=["set_or_call", "element_is_fetch_only"],
      expect_tags=["C04.setcall.refused-for-unknown-path-fetch-only-wrong-type-or-missing-group-before-anything-is-routed", "C03.route.delivered-once-to-the-owner-only"], **EL_COMMON)
+
+# ------------------------------------------------------------------------------------------
+# C03 routed requests (router.c)
+# ------------------------------------------------------------------------------------------
+RT_COMMON = dict(cfg="rt2", unwind=8, cbmc_unwindset=CJ_UNWIND + ["cj_name_eq_nocase.0:8", "strcmp.0:8", "strlen.0:8", "memcpy.0:8", "hashtable_create_route_table.0:6", "remove_routing_info_from_peer.0:5", "remove_peer_from_routing_table.0:5", "verif_rt_put.0:5", "verif_rt_get.0:5", "verif_rt_remove.0:5"], mem_gb=30, solver="cadical", kind="proof",
+                 flags=["--memory-leak-check"], timeout=900,
+                 bound="routing table of 4 slots holding <= 2 in-flight requests from 2 callers",
+                 goto_instrument_args=["--value-set-fi-fp-removal"],
+                 assumes=CJ_ASSUME + ["routing table put/get/remove = finite-map contract (C17) with nondeterministic slot placement over router.c's real slot array", "timers, allocator, send_message: recording stubs", "snprintf stub (ids are not formatted in these units)"])
+for _h, _props, _fns, _tags in (
+        ("reply", ["C03", "C07", "C06"], ["handle_routing_response", "format_and_send_response", "create_result_response"], ["C03.reply.caller-gets-exactly-one-answer-with-its-id-and-the-owners-payload", "C03.reply.other-requests-untouched"]),
+        ("timeout", ["C14", "C03", "C07", "C06"], ["request_timeout_handler", "create_error_response"], ["C14.timeout.caller-gets-exactly-one-timeout-error-with-its-id"]),
+        ("ownerdown", ["C03", "C05", "C07", "C06"], ["remove_routing_info_from_peer", "clear_routing_entry", "send_shutdown_response"], ["C03.ownerdown.each-caller-with-an-id-gets-exactly-one-shutdown-error", "C03.ownerdown.table-empty-afterwards"]),
+        ("bystander", ["C03", "C05", "C07", "C06"], ["remove_peer_from_routing_table", "clear_routing_entry"], ["C03.bystander.requests-of-other-callers-are-untouched"]),
+        ("setup", ["C03", "C14", "C07", "C06"], ["setup_routing_information"], ["C03.setup.refused-request-is-not-registered", "C14.setup.deadline-is-the-requests-timeout-else-the-elements"])):
+    for _sh, _nm in (((1, "c1"), (2, "c1c1"), (2 | 8, "c1c2")) if _h != "setup" else ((0, "empty"), (1, "c1"))):
+        _c = dict(RT_COMMON, defines=["RT_SHAPE=%d" % _sh])
+        if _h in ("ownerdown", "bystander"):
+            # the sweeps visit every slot: a 2-slot table keeps them small and still has a "last slot"
+            _c = dict(_c, cfg="rt1", bound="routing table of 2 slots (order 1) holding <= 2 in-flight requests from 2 callers")
+        unit("rt.%s.%s" % (_h, _nm), _props, "units/u_router.c", entry="h_rt_" + _h, functions=_fns, expect_tags=_tags, **_c)
+
 
 # ------------------------------------------------------------------------------------------
 # C08 access control (peer.c, groups.c, authenticate.c, linux_io.c)
